@@ -112,7 +112,8 @@ def generate(prop, seed, idx, tier="quick") -> dict:
     force = None
     if prop == "C19":
         # exhaustive product {fault} x {class} x {fresh, fitted}, worlds and positions seeded
-        classes = [c for c, _ in worlds.SUT_WEIGHTS]
+        # BaseDiscretizer.fit takes X and y only for signature compatibility: nothing to refuse there
+        classes = [c for c, _ in worlds.SUT_WEIGHTS if c != "BaseDiscretizer"]
         combo = idx % (len(C19_FAULTS) * len(classes) * 2)
         fault = C19_FAULTS[combo % len(C19_FAULTS)]
         force = classes[(combo // len(C19_FAULTS)) % len(classes)]
@@ -987,6 +988,13 @@ class Session:
                 lo = max(below) if below else lead - max(1.0, abs(lead))
                 new_bound = (lo + lead) / 2
             new_bound = float(new_bound)
+            wfeat = [f for f in self.world["features"] if f["name"] == model.raw_of(feat)][0]
+            if wfeat.get("dtype") == "float32":
+                # a bound that float32 data cannot represent would be compared after a silent
+                # rounding (numpy casts the scalar to the column's dtype): keep it representable
+                import struct  # pylint: disable=C0415
+
+                new_bound = struct.unpack("f", struct.pack("f", new_bound))[0]
             if not math.isfinite(new_bound) or model.group_of(feat, new_bound) is not None:
                 return None
             if prev_lead is not None and not new_bound > prev_lead:
@@ -1067,8 +1075,10 @@ class Session:
             model.edit_rename(feat, edit["discarded"], edit["kept"])
         else:
             model.edit_group(feat, discarded, edit["kept"])
-            if nan_edit:
-                model.dropna[feat] = True
+        if nan_edit:
+            # missing values grouped by hand receive their group's label from now on, also when
+            # they already were in that group (the call then only warns)
+            model.dropna[feat] = True
         # labels the object gives to quantitative 'str' groups are read back (only injectivity is demanded)
         model.given_labels = {
             f: {vkey(py(k)): py(v) for k, v in self.live.labels_per_values.get(f, {}).items()} for f in model.features
